@@ -102,9 +102,15 @@ func c13Gen(r *core.Rng) c13case {
 		k.Vars = append(k.Vars, v)
 		if r.Chance(35) {
 			k.Ambient[v.Name] = "ambient-" + v.Name
+			if v.Kind == "string" && r.Chance(30) && !strings.ContainsAny(v.Text, "\n") {
+				k.Ambient[v.Name] = v.Text // the environment happens to hold the very same value
+			}
 		}
 		if r.Chance(35) {
 			k.DotEnv[v.Name] = "dotenv-" + v.Name
+			if v.Kind == "string" && r.Chance(30) && v.Text != "" && !strings.ContainsAny(v.Text, " #$\\'`\n") {
+				k.DotEnv[v.Name] = v.Text
+			}
 		}
 		before := strings.TrimRight(c13Lit(r), "{") // "{" directly before "{{" would be a template error
 		k.Lits = append(k.Lits, [2]string{before, c13Lit(r)})
